@@ -480,14 +480,42 @@ def c20(ctx):
             item = {"kind": rec["kind"], "why": r.get("why"), "prog": ln["prog"], "obs": ln["obs"],
                     "env_anomalies": ln["env"].get("anomalies")}
         tally.add(r["cls"], item, dev=r.get("dev"), nontrivial_key=rec["id"])
+    # hook selection: which hooks a principal is run
+    q = ctx.quick()
+    hmc = model_check(ctx, "MC_HookSel", dict(constants={"MaxHooks": 2 if q else 3}, invariants=["OnlyAssigned"], constraints=["Emit"]),
+                      workers=4, timeout=3600)
+    hs, seen = [], set()
+    for x in hmc.records:
+        k = json.dumps(x, sort_keys=True)
+        if x.get("t") == "SCN" and k not in seen:
+            seen.add(k)
+            hs.append(x)
+    if not hs:
+        raise Infra("TLC emitted no hook-selection scenarios")
+    hscn = os.path.join(ctx.scratch, "hooksel.ndjson")
+    write_ndjson(hscn, hs)
+    htrace = os.path.join(ctx.sub("hooksel"), "trace.ndjson")
+    run_vh(ctx, ["hooksel", "-scn", hscn, "-out", htrace, "-seed", ctx.seed, "-n", 60 if q else 2000], timeout=3 * 3600)
+    hcls = validate_trace(ctx, "Trace_HookSel", htrace, {}, shards=2 if q else 8)
+    hlines = {x["id"]: x for x in read_ndjson(htrace)}
+    for rec in hcls:
+        r = rec["r"]
+        if r["cls"] == "infra":
+            raise Infra("hook-selection scenario %d could not run: %s" % (rec["id"], r.get("why")))
+        item = None
+        if r["cls"] != "conform":
+            item = {"kind": "sel", "why": r.get("why"), "scenario": hlines[rec["id"]]["scn"], "obs": hlines[rec["id"]]["obs"]}
+        tally.add(r["cls"], item, nontrivial_key=("sel", rec["id"]))
     env = lines[1]["env"]
-    samples = [{"environment_globals": sorted(env["globals"]), "protected": env["prot"]}, {"program": scns[0]["prog"]}]
-    return finish(ctx, tally, samples=samples, traces=len(cls), exhaustive=True,
+    samples = [{"environment_globals": sorted(env["globals"]), "protected": env["prot"]}, {"program": scns[0]["prog"]}, {"hooks": hs[0]}]
+    return finish(ctx, tally, samples=samples, traces=len(cls) + len(hcls), exhaustive=True,
                   assumptions=["the closure of the real environment is walked from the Go side through the verif accessor (globals, "
                                "library tables, metatables, string metatable, function environments, upvalues): an over-approximation "
                                "of what a script can reach", "that the allow-listed library functions are pure is gopher-lua's semantics "
                                "and is trusted", "timeouts are judged with a 1.5 s tolerance and a hard outer deadline of 21 s",
-                               "hook selection per principal (InvokeHooksForStage) is not exercised yet"])
+                               "hook selection: policies with up to 2 (quick) / 3 (thorough) hooks over two stages and three principals (one a person with "
+                               "two keys) are built in real repositories and InvokeHooksForStage(pre-commit) is called with each key; the pre-push "
+                               "stage is declared but not invoked (it needs a remote); a seeded sample is replayed"])
 
 
 # ---------------------------------------------------------------------------
